@@ -1223,7 +1223,9 @@ def main(ctx):
         'harness glue: decoding of the int-array polyhedron format, float -> exact rational '
         '(float.as_integer_ratio), grouping by elem_conv, classification of the run regime '
         '(exact rational dihedral cosines)',
-        'the drivers remove_edges (which edges are tried, angle test) / remove_vertices_2 / merge_vertices / '
+        'one pass of remove_edges is modelled (ModelDriver.v / HarnessDriver.v: exact angle test, all-cells '
+        'rule, key order) and tied by exact correspondence on the merged cells of the runs; the 10-pass loop, '
+        'remove_vertices_2 / merge_vertices / '
         'shrink and the k-NN construction of the conversion matrices are NOT modelled (the per-cell step '
         'remove_one_edge with its edge-multiset / balance / coplanar-volume theorems, reindex and '
         'recalc_node_pos are): they are covered only by the '
@@ -1265,10 +1267,11 @@ def main(ctx):
         ctx.violation('proof-broken', {}, 'all theorems of C20/Props.v check', 'do not check: ' + ', '.join(bad),
                       ', '.join(bad), found_input=False, signature={'check': 'proof', 'bad': bad})
     ctx.notes['labels'] = {
-        'proof': 'C20_merge_* / C20_remove_one_edge_* / C20_reindex_* / C20_mean_* / C20_sum_* / C20_*_b_iff '
+        'proof': 'C20_merge_* / C20_remove_one_edge_* / C20_angle_test_planar / C20_reindex_* / C20_mean_* / C20_sum_* / C20_*_b_iff '
                  '(Coq, all inputs)',
         'correspondence': 'merge_polyhedrons and merge_elements vs Model.merge; reindex/recalc_node_pos vs '
-                          'ModelReindex; remove_one_edge_from_polyhedron vs ModelEdge (exact; synthetic cells and '
+                          'ModelReindex; one pass of remove_edges vs HarnessDriver.driver_pass (exact); '
+                          'remove_one_edge_from_polyhedron vs ModelEdge (exact; synthetic cells and '
                           'merged cells of the runs, there with planar_b / volQ instances of '
                           'C20_remove_one_edge_volume); transfer results vs '
                           'Model.mean_tr / sum_tr / sum_tr_broadcast (evaluated in Coq)',
